@@ -101,3 +101,7 @@ Lemma trace_example :
   [(0, XPub false); (0, XPub true); (1, XFail); (1, XStop false); (2, XPub false); (2, XPub true);
    (0, XPub true); (0, XStop true); (2, XStop true)].
 Proof. vm_compute. reflexivity. Qed.
+
+Lemma stop_count_example :
+  stop_count wx (pinit wx) h_end 0 = 1 /\ stop_count wx (pinit wx) h_end 1 = 1 /\ stop_count wx (pinit wx) h_live 0 = 0.
+Proof. vm_compute. auto. Qed.
